@@ -111,6 +111,7 @@ package randomness
 //@   requires len(bits) >= 8
 //@   modifies nothing
 //@   pure
+//@   ensures r1 == r0 && 0.0 <= r0 && r0 <= 1.0
 //@   loop 1
 //@     invariant 0 <= i && i <= N
 //@     invariant forall v int :: 0 <= v && v < _2m ==> patterns[v] == cntpat(bits, m, v, i)
